@@ -137,3 +137,78 @@ def run(ctx, driver, cases, to_term, header, case_type, key_fn, describe, nontri
                       field=clause, step=st, case=case, impl_obs=ob),
                  no_input=True)
     return len(cases)
+
+
+# ---- added by b-lists: several case groups evaluated concurrently, reported sequentially -------------------
+def report_results(ctx, driver, cases, obs, corr, law, err, to_term, header, case_type, key_fn, describe, nontrivial,
+                   relation, tag="cases", do_shrink=True):
+    """The reporting half of `run` for results obtained from `evaluate` (same protocol, same messages)."""
+    if err:
+        ctx.obligation("correspondence " + relation, False, err[-800:])
+        ctx.fail("harness/" + tag, "correspondence %s could not be evaluated: %s" % (relation, err[-400:]),
+                 dict(relation=relation, error=err[-2000:]), no_input=True)
+        return 0
+    for c, o in zip(cases, obs):
+        sig, nt = nontrivial(c, o)
+        ctx.case_seen(sig, nt)
+    ctx.cov["traces_validated_against_impl"] += len(cases)
+    lawg, corrg = _group(law), _group(corr)
+    reported = set()
+    for i in sorted(lawg):
+        for code in sorted(lawg[i]):
+            step, clause = code // 100, code % 100
+            key = key_fn(cases[i], obs[i], step, clause)
+            if key in reported:
+                continue
+            reported.add(key)
+            known = any(e.get("status") == "known" and e.get("key") == key for e in ctx.known)
+            case, ob, st = cases[i], obs[i], step
+            if do_shrink and not known:
+                case, ob2, st = shrink(ctx, driver, cases[i], to_term, header, case_type, "law", step, clause)
+                ob = ob2 if ob2 is not None else obs[i]
+                if ob2 is None:
+                    case, st = cases[i], step
+            ctx.fail(key, describe(case, ob, st, clause),
+                     dict(kind="law-failure-on-implementation", clause=clause, step=st, case=case, impl_obs=ob))
+    bad_corr = [i for i in sorted(corrg) if i not in lawg]
+    ctx.obligation("correspondence " + relation, not corrg,
+                   "%d of %d histories disagree" % (len(corrg), len(cases)) if corrg else
+                   "model = implementation on %d histories" % len(cases))
+    if bad_corr:
+        i = bad_corr[0]
+        code = sorted(corrg[i])[0]
+        step, clause = code // 100, code % 100
+        case, ob, st = cases[i], obs[i], step
+        if do_shrink:
+            case, ob2, st = shrink(ctx, driver, cases[i], to_term, header, case_type, "corr", step, clause)
+            ob = ob2 if ob2 is not None else obs[i]
+            if ob2 is None:
+                case, st = cases[i], step
+        ctx.fail("corr/%s/field%d" % (relation, clause),
+                 "model and implementation disagree (%s, step %d, field %d) in %d histories; the law holds on "
+                 "the implementation's observations there, so the property is no longer shown" % (
+                     relation, st, clause, len(bad_corr)),
+                 dict(kind="correspondence-broken", relation=relation, theorem_no_longer_applicable=relation,
+                      field=clause, step=st, case=case, impl_obs=ob),
+                 no_input=True)
+    return len(cases)
+
+
+def run_parallel(ctx, jobs, workers=6):
+    """jobs: list of dicts with the keyword arguments of `run` (driver, cases, to_term, header, case_type, key_fn,
+    describe, nontrivial, relation, tag).  The driver runs and the in-Coq evaluations of all jobs proceed
+    concurrently; the results are reported in job order, exactly as `run` does."""
+    import concurrent.futures
+    ctx.build_impl()          # once, before the threads start
+
+    def ev(j):
+        return evaluate(ctx, j["driver"], j["cases"], j["to_term"], j["header"], j["case_type"], j.get("tag", "cases"))
+
+    with concurrent.futures.ThreadPoolExecutor(max_workers=workers) as ex:
+        results = list(ex.map(ev, jobs))
+    total = 0
+    for j, (obs, corr, law, err) in zip(jobs, results):
+        total += report_results(ctx, j["driver"], j["cases"], obs, corr, law, err, j["to_term"], j["header"],
+                                j["case_type"], j["key_fn"], j["describe"], j["nontrivial"], j["relation"],
+                                tag=j.get("tag", "cases"), do_shrink=j.get("do_shrink", True))
+    return total
